@@ -225,17 +225,19 @@ func (ex *Exec) eventName(fn *types.Func, call *ast.CallExpr) (string, bool) {
 		return "", false
 	}
 	if fn != nil {
-		if fn.Name() == "P" && len(ex.pEvents) > 0 && call != nil && len(ex.inlineStack) == 0 {
+		if fn.Name() == "P" && len(ex.pEvents) > 0 && call != nil {
 			// emitted text: a P call whose literal arguments contain a substring the contract counts (count("P:<substring>"))
+			runs := ex.literalRuns(call)
 			for _, want := range ex.pEvents {
-				for _, a := range call.Args {
-					if bl, ok := a.(*ast.BasicLit); ok && bl.Kind == token.STRING && strings.Contains(bl.Value, want) {
+				for _, r := range runs {
+					if strings.Contains(r, want) {
 						return "P:" + want, true
 					}
 				}
 			}
 		}
-		if ex.contract != nil && len(ex.inlineStack) == 0 {
+		if ex.contract != nil {
+			// (also inside a helper without a contract that was inlined: its calls are the unit's calls)
 			// a callee named by an at-call clause of the unit under verification is an event of that unit
 			for _, ac := range ex.contract.AtCall {
 				qualified := ""
@@ -537,4 +539,101 @@ func (ex *Exec) havocNamedEvents(p *Path, names []string) {
 			}
 		}
 	}
+}
+
+
+// literalRuns: the maximal runs of literal text of the line a P call prints. Adjacent string literals are joined, across
+// `+` and across a local string variable that is assigned exactly once from literals and other text (so
+// `x := "req." + name; P("if ", x, ...)` prints the run "if req."); anything else ends a run.
+func (ex *Exec) literalRuns(call *ast.CallExpr) []string {
+	var runs []string
+	cur := ""
+	open := false
+	flush := func() {
+		if open {
+			runs = append(runs, cur)
+		}
+		cur, open = "", false
+	}
+	var walk func(e ast.Expr, depth int)
+	walk = func(e ast.Expr, depth int) {
+		switch x := unparen(e).(type) {
+		case *ast.BasicLit:
+			if x.Kind == token.STRING && len(x.Value) >= 2 {
+				cur += x.Value[1 : len(x.Value)-1] // source text between the quotes (escapes as written)
+				open = true
+				return
+			}
+		case *ast.BinaryExpr:
+			if x.Op == token.ADD {
+				walk(x.X, depth)
+				walk(x.Y, depth)
+				return
+			}
+		case *ast.Ident:
+			if depth < 4 && ex.info != nil && ex.fi != nil && ex.fi.Decl != nil && ex.fi.Decl.Body != nil {
+				if v, ok := ex.info.Uses[x].(*types.Var); ok && v.Pkg() != nil && v.Parent() != v.Pkg().Scope() {
+					if b, isB := v.Type().Underlying().(*types.Basic); isB && b.Info()&types.IsString != 0 {
+						if def := ex.singleDefinition(v); def != nil {
+							walk(def, depth+1)
+							return
+						}
+					}
+				}
+			}
+		}
+		flush()
+	}
+	for _, a := range call.Args {
+		walk(a, 0)
+	}
+	flush()
+	return runs
+}
+
+// singleDefinition: the right-hand side of the only assignment to a local variable of the unit (nil if it is assigned
+// more than once, is a parameter, or is assigned by a multi-value statement).
+func (ex *Exec) singleDefinition(v *types.Var) ast.Expr {
+	var def ast.Expr
+	n := 0
+	ast.Inspect(ex.fi.Decl.Body, func(nd ast.Node) bool {
+		switch st := nd.(type) {
+		case *ast.AssignStmt:
+			for i, l := range st.Lhs {
+				id, ok := l.(*ast.Ident)
+				if !ok {
+					continue
+				}
+				obj := ex.info.Defs[id]
+				if obj == nil {
+					obj = ex.info.Uses[id]
+				}
+				if obj == v {
+					n++
+					if len(st.Lhs) == len(st.Rhs) && st.Tok != token.ADD_ASSIGN {
+						def = st.Rhs[i]
+					} else {
+						n++
+					}
+				}
+			}
+		case *ast.ValueSpec:
+			for i, id := range st.Names {
+				if ex.info.Defs[id] == v {
+					n++
+					if i < len(st.Values) {
+						def = st.Values[i]
+					} else {
+						n++
+					}
+				}
+			}
+		case *ast.IncDecStmt, *ast.RangeStmt:
+		}
+		return true
+	})
+	if n != 1 {
+		return nil
+	}
+	return def
 }
